@@ -1,4 +1,11 @@
 import PewModel.Npz
+import Mathlib.Tactic.Linarith
+import Mathlib.Tactic.Ring
+import Mathlib.Tactic.FieldSimp
+import Mathlib.Tactic.NormNum
+import Mathlib.Tactic.Positivity
+import Mathlib.Algebra.Order.Field.Rat
+import Mathlib.Algebra.Order.Field.Basic
 
 /-! # C01 — helper lemmas for `PewTheorems.C01` -/
 namespace Pew.Npz
@@ -142,5 +149,367 @@ theorem filter_padded (ws : List Flt) (pts : List (Flt × Flt)) (a b : Nat)
     have : r = (qnan, (qnan, qnan)) := by cases r; simp_all
     rw [this, rowIsPad_pad]; simp
   rw [h1, h2, List.append_nil]
+
+/-! ## dicts -/
+
+theorem keys_cons {β} (kv : Str × β) (d : List (Str × β)) : keys (kv :: d) = kv.1 :: keys d := rfl
+
+theorem dictInsert_of_not_mem {β} (d : List (Str × β)) (k : Str) (v : β) (h : k ∉ keys d) :
+    dictInsert d k v = d ++ [(k, v)] := by
+  induction d with
+  | nil => rfl
+  | cons kv r ih =>
+    obtain ⟨k', v'⟩ := kv
+    simp only [keys, List.map_cons, List.mem_cons, not_or] at h
+    have hne : ¬ k' = k := fun e => h.1 e.symm
+    simp only [dictInsert, if_neg hne, List.cons_append]
+    rw [ih (by simpa [keys] using h.2)]
+
+theorem keys_dictInsert_of_not_mem {β} (d : List (Str × β)) (k : Str) (v : β) (h : k ∉ keys d) :
+    keys (dictInsert d k v) = keys d ++ [k] := by
+  rw [dictInsert_of_not_mem d k v h]; simp [keys]
+
+theorem dictUpdate_append_of_nodup {β} (l d : List (Str × β)) (h : (keys (d ++ l)).Nodup) :
+    dictUpdate d l = d ++ l := by
+  induction l generalizing d with
+  | nil => simp [dictUpdate]
+  | cons kv r ih =>
+    have hk : kv.1 ∉ keys d := by
+      simp only [keys, List.map_append, List.map_cons] at h
+      have := (List.nodup_append.mp h).2.2
+      intro hm
+      exact this _ hm _ (by simp) rfl
+    simp only [dictUpdate, List.foldl_cons]
+    rw [dictInsert_of_not_mem d kv.1 kv.2 hk]
+    have := ih (d ++ [(kv.1, kv.2)]) (by simpa using h)
+    simpa [dictUpdate] using this
+
+theorem dictOfList_of_nodup {β} (l : List (Str × β)) (h : (keys l).Nodup) : dictOfList l = l := by
+  have := dictUpdate_append_of_nodup l [] (by simpa using h)
+  simpa [dictOfList] using this
+
+theorem dictUpdate_cons_of_not_mem {β} (k : Str) (v : β) (b d : List (Str × β)) (h : k ∉ keys d) :
+    dictUpdate ((k, v) :: b) d = (k, v) :: dictUpdate b d := by
+  induction d generalizing b with
+  | nil => rfl
+  | cons kv r ih =>
+    simp only [keys, List.map_cons, List.mem_cons, not_or] at h
+    simp only [dictUpdate, List.foldl_cons]
+    have hne : ¬ k = kv.1 := h.1
+    simp only [dictInsert, if_neg hne]
+    exact ih _ (by simpa [keys] using h.2)
+
+/-- updating a dict with a dict that has the same keys in the same order replaces it -/
+theorem dictUpdate_same_keys {β} (b d : List (Str × β)) (hk : keys b = keys d) (hn : (keys d).Nodup) :
+    dictUpdate b d = d := by
+  induction d generalizing b with
+  | nil =>
+    have : b = [] := by simpa [keys] using hk
+    subst this; rfl
+  | cons kv r ih =>
+    obtain ⟨k, v⟩ := kv
+    cases b with
+    | nil => simp [keys] at hk
+    | cons kv0 b' =>
+      obtain ⟨k0, v0⟩ := kv0
+      simp only [keys, List.map_cons, List.cons.injEq] at hk
+      obtain ⟨rfl, hk'⟩ := hk
+      simp only [keys, List.map_cons, List.nodup_cons] at hn
+      have h1 : dictUpdate ((k0, v0) :: b') ((k0, v) :: r) = dictUpdate ((k0, v) :: b') r := by
+        simp [dictUpdate, dictInsert]
+      rw [h1, dictUpdate_cons_of_not_mem k0 v b' r (by simpa [keys] using hn.1)]
+      rw [ih b' (by simpa [keys] using hk') hn.2]
+
+/-! ## packed calibrations -/
+
+theorem le_foldl_max (l : List (Str × Cal)) (m : Nat) :
+    m ≤ l.foldl (fun m kc => max m kc.2.points.length) m ∧
+    ∀ kc ∈ l, kc.2.points.length ≤ l.foldl (fun m kc => max m kc.2.points.length) m := by
+  induction l generalizing m with
+  | nil => simp
+  | cons a r ih =>
+    simp only [List.foldl_cons, List.mem_cons, forall_eq_or_imp]
+    have := ih (max m a.2.points.length)
+    refine ⟨by omega, by omega, this.2⟩
+
+theorem le_maxLen (d : List (Str × Cal)) (kc : Str × Cal) (h : kc ∈ d) : kc.2.points.length ≤ maxLen d :=
+  (le_foldl_max d 0).2 kc h
+
+/-! ## SRR configuration -/
+
+theorem roundHalfEven_near (n : Int) (q : Rat) (h1 : (n : Rat) - 1/2 < q) (h2 : q < n + 1/2) :
+    roundHalfEven q = n := by
+  rcases le_or_gt (n : Rat) q with h | h
+  · have hf : q.floor = n := by
+      apply le_antisymm
+      · have : q.floor < n + 1 := by
+          rw [Rat.floor_lt_iff]; push_cast; linarith
+        omega
+      · rw [Rat.le_floor_iff]; exact h
+    unfold roundHalfEven
+    simp only [hf]
+    rw [if_pos (by linarith)]
+  · have hf : q.floor = n - 1 := by
+      apply le_antisymm
+      · have : q.floor < n := by rw [Rat.floor_lt_iff]; exact h
+        omega
+      · rw [Rat.le_floor_iff]; push_cast; linarith
+    unfold roundHalfEven
+    simp only [hf]
+    push_cast
+    rw [if_neg (by linarith), if_pos (by linarith)]
+    ring
+
+/-- robustness of the warm-up recomputation: with every float operation within relative error
+2⁻⁵³ of the exact result, `round((n·s)/s) = n` for every positive scan time and |n| ≤ 2⁵⁰ -/
+theorem warmup_robust (fl : Rat → Rat) (hfl : ∀ x, |fl x - x| ≤ |x| / 2 ^ 53) (s : Rat) (hs : 0 < s)
+    (N : Int) (hN : N.natAbs ≤ 2 ^ 50) :
+    roundHalfEven (fl (fl ((N : Rat) * s) / s)) = N := by
+  have hA : |(N : Rat)| ≤ 2 ^ 50 := by
+    have : ((N.natAbs : Int) : Rat) ≤ ((2 ^ 50 : Nat) : Rat) := by exact_mod_cast hN
+    rw [Int.natCast_natAbs, Int.cast_abs] at this
+    calc |(N : Rat)| ≤ ((2 ^ 50 : Nat) : Rat) := this
+      _ = 2 ^ 50 := by norm_num
+  have hy := hfl ((N : Rat) * s)
+  have hw : |fl ((N : Rat) * s) / s - N| ≤ |(N : Rat)| / 2 ^ 53 := by
+    have e : fl ((N : Rat) * s) / s - N = (fl ((N : Rat) * s) - N * s) / s := by
+      field_simp
+    rw [e, abs_div, abs_of_pos hs, div_le_iff₀ hs]
+    calc |fl (↑N * s) - ↑N * s| ≤ |(N : Rat) * s| / 2 ^ 53 := hy
+      _ = |(N : Rat)| / 2 ^ 53 * s := by rw [abs_mul, abs_of_pos hs]; ring
+  have hz := hfl (fl ((N : Rat) * s) / s)
+  have hwa : |fl ((N : Rat) * s) / s| ≤ |(N : Rat)| + |(N : Rat)| / 2 ^ 53 := by
+    have := abs_sub_abs_le_abs_sub (fl ((N : Rat) * s) / s) (N : Rat)
+    linarith
+  have hfin : |fl (fl ((N : Rat) * s) / s) - N| < 1 / 2 := by
+    have t := abs_sub_le (fl (fl ((N : Rat) * s) / s)) (fl ((N : Rat) * s) / s) (N : Rat)
+    have h53 : (0 : Rat) < 2 ^ 53 := by positivity
+    have : |fl ((N : Rat) * s) / s| / 2 ^ 53 ≤ (|(N : Rat)| + |(N : Rat)| / 2 ^ 53) / 2 ^ 53 :=
+      div_le_div_of_nonneg_right hwa h53.le
+    have hb : (|(N : Rat)| + |(N : Rat)| / 2 ^ 53) / 2 ^ 53 + |(N : Rat)| / 2 ^ 53 < 1 / 2 := by
+      have : |(N : Rat)| / 2 ^ 53 ≤ 2 ^ 50 / 2 ^ 53 := div_le_div_of_nonneg_right hA h53.le
+      have h2 : (|(N : Rat)| + |(N : Rat)| / 2 ^ 53) / 2 ^ 53 ≤ (2 ^ 50 + 2 ^ 50 / 2 ^ 53) / 2 ^ 53 :=
+        div_le_div_of_nonneg_right (by linarith) h53.le
+      have : ((2 : Rat) ^ 50 + 2 ^ 50 / 2 ^ 53) / 2 ^ 53 + 2 ^ 50 / 2 ^ 53 < 1 / 2 := by norm_num
+      linarith
+    linarith
+  rw [abs_lt] at hfin
+  exact roundHalfEven_near N _ (by linarith [hfin.1]) (by linarith [hfin.2])
+
+theorem foldl_lcm_const (l : List Int) (s : Nat) (h : ∀ x ∈ l, x = (s : Int)) :
+    l.foldl (fun a b => Nat.lcm a b.natAbs) s = s := by
+  induction l with
+  | nil => rfl
+  | cons x r ih =>
+    have hx : x = (s : Int) := h x (by simp)
+    simp only [List.foldl_cons, hx, Int.natAbs_natCast, Nat.lcm_self]
+    exact ih (fun y hy => h y (by simp [hy]))
+
+theorem lcmList_const (l : List Int) (s : Nat) (hne : l ≠ []) (h : ∀ x ∈ l, x = (s : Int)) :
+    lcmList l = s := by
+  cases l with
+  | nil => exact absurd rfl hne
+  | cons x r =>
+    have hx : x = (s : Int) := h x (by simp)
+    simp only [lcmList, List.foldl_cons, hx, Int.natAbs_natCast, Nat.lcm_one_left]
+    exact foldl_lcm_const r s (fun y hy => h y (by simp [hy]))
+
+theorem srr_roundtrip (fl : Rat → Rat) (hfl : ∀ x, |fl x - x| ≤ |x| / 2 ^ 53) (c : SRR) (hok : c.ok = true) :
+    srrFromArray fl (Config.toArray fl (.srr c)) = .ok (.srr c) := by
+  simp only [SRR.ok, Bool.and_eq_true, decide_eq_true_eq, Bool.not_eq_true', List.isEmpty_eq_false_iff] at hok
+  obtain ⟨⟨⟨hs, hsz⟩, hoff⟩, hN⟩ := hok
+  simp only [Config.toArray, srrFromArray]
+  rw [if_neg (by simpa using hoff)]
+  have hl : lcmList ((c.subOffsets.map fun o => (o, (c.subSize : Int))).map (·.2)) = c.subSize := by
+    apply lcmList_const
+    · simpa using hoff
+    · intro x hx
+      simp only [List.map_map, List.mem_map, Function.comp] at hx
+      obtain ⟨_, _, rfl⟩ := hx
+      rfl
+  have hz : (c.subSize : Int) ≠ 0 := by omega
+  rw [List.map_map] at hl
+  simp only [SRR.mk', List.map_map, hl, warmup_robust fl hfl c.scantime hs c.warmupN hN]
+  have : c.subOffsets.map ((fun od : Int × Int => od.1 * (c.subSize : Int) / od.2) ∘ fun o => (o, (c.subSize : Int)))
+      = c.subOffsets := by
+    conv => rhs; rw [← List.map_id c.subOffsets]
+    apply List.map_congr_left
+    intro o _
+    simp only [Function.comp, id]
+    exact Int.mul_ediv_cancel o hz
+  rw [this]
+  rfl
+
+/-! ## image data -/
+
+theorem chunks_flatMap (k : Nat) (ls : List Layer) (h : ∀ l ∈ ls, l.cells.length = k) :
+    chunks k ls.length (ls.flatMap (·.cells)) = ls.map (·.cells) := by
+  induction ls with
+  | nil => rfl
+  | cons a r ih =>
+    have ha : a.cells.length = k := h a (by simp)
+    simp only [List.length_cons, List.flatMap_cons, chunks, List.map_cons]
+    rw [List.take_left' ha, List.drop_left' ha, ih (fun l hl => h l (by simp [hl]))]
+
+theorem splitLayers_stack (fields : List (Str × Str)) (sh : List Nat) (ls : List Layer)
+    (h : ∀ l ∈ ls, l.shape = sh ∧ l.cells.length = prod sh) :
+    splitLayers ⟨fields, ls.length :: sh, ls.flatMap (·.cells)⟩ = .ok ls := by
+  simp only [splitLayers]
+  rw [chunks_flatMap _ _ (fun l hl => (h l hl).2), List.map_map]
+  have : ls.map ((fun c => (⟨sh, c⟩ : Layer)) ∘ fun l => l.cells) = ls := by
+    conv => rhs; rw [← List.map_id ls]
+    apply List.map_congr_left
+    intro l hl
+    have := (h l hl).1
+    cases l
+    simp_all
+  rw [this]
+  rfl
+
+/-! ## trailing NUL of packed strings -/
+
+theorem noNulEnd_append_sep (a t : Str) (c : Char) (hc : c ≠ NUL) (h : noNulEnd t = true) :
+    noNulEnd (a ++ c :: t) = true := by
+  cases t with
+  | nil => simp [noNulEnd, hc]
+  | cons d t' =>
+    simp only [noNulEnd, List.getLast?_append, List.getLast?_cons_cons] at h ⊢
+    cases hl : (d :: t').getLast? with
+    | none => simp at hl
+    | some x => rw [hl] at h; simpa using h
+
+theorem noNulEnd_tabToSpace (t : Str) : noNulEnd (tabToSpace t) = noNulEnd t := by
+  simp only [noNulEnd, tabToSpace, replaceChar, List.getLast?_map]
+  cases t.getLast? with
+  | none => rfl
+  | some c =>
+    simp only [Option.map_some]
+    by_cases hc : c = '\t'
+    · subst hc; decide
+    · simp [hc]
+
+theorem tab_ne_NUL : '\t' ≠ NUL := by decide
+
+theorem noNulEnd_joinSep (l : List Str) (h : ∀ x ∈ l, noNulEnd x = true) : noNulEnd (joinSep '\t' l) = true := by
+  induction l with
+  | nil => rfl
+  | cons a r ih =>
+    cases r with
+    | nil => simpa [joinSep] using h a (by simp)
+    | cons b r' =>
+      simp only [joinSep]
+      exact noNulEnd_append_sep _ _ _ tab_ne_NUL (ih (fun x hx => h x (by simp [hx])))
+
+theorem noNulEnd_packInfoRaw (i : Info) (h : infoNoNul i = true) : noNulEnd (packInfoRaw i) = true := by
+  unfold packInfoRaw
+  apply noNulEnd_joinSep
+  intro x hx
+  simp only [List.mem_map, List.mem_filter] at hx
+  obtain ⟨kv, ⟨hkv, hne⟩, rfl⟩ := hx
+  apply noNulEnd_append_sep _ _ _ tab_ne_NUL
+  rw [noNulEnd_tabToSpace]
+  have := (List.all_eq_true.mp h) kv hkv
+  simp only [Bool.or_eq_true, beq_iff_eq] at this
+  rcases this with e | e
+  · simp [e] at hne
+  · exact e
+
+/-! ## the pieces of `load (save L)` -/
+
+theorem header_unpack (ver cls time : Str) (ht : noNulEnd time = true) :
+    unpackInfo (packInfo [(kVersion, ver), (kClass, cls), (kTime, time)])
+      = [(kVersion, tabToSpace ver), (kClass, tabToSpace cls), (kTime, tabToSpace time)] := by
+  have h1 : kVersion ≠ kFilePath := by decide
+  have h2 : kClass ≠ kFilePath := by decide
+  have h3 : kTime ≠ kFilePath := by decide
+  have h4 : ¬ kVersion = kClass := by decide
+  have h5 : ¬ kVersion = kTime := by decide
+  have h6 : ¬ kClass = kTime := by decide
+  have k1 : tabToSpace kVersion = kVersion := by decide
+  have k2 : tabToSpace kClass = kClass := by decide
+  have k3 : tabToSpace kTime = kTime := by decide
+  have hn : noNulEnd (packInfoRaw [(kVersion, ver), (kClass, cls), (kTime, time)]) = true := by
+    have : packInfoRaw [(kVersion, ver), (kClass, cls), (kTime, time)]
+        = (tabToSpace kVersion ++ '\t' :: tabToSpace ver) ++ '\t' ::
+          ((tabToSpace kClass ++ '\t' :: tabToSpace cls) ++ '\t' :: (tabToSpace kTime ++ '\t' :: tabToSpace time)) := by
+      simp [packInfoRaw, List.filter, h1, h2, h3, joinSep]
+    rw [this]
+    apply noNulEnd_append_sep _ _ _ tab_ne_NUL
+    apply noNulEnd_append_sep _ _ _ tab_ne_NUL
+    apply noNulEnd_append_sep _ _ _ tab_ne_NUL
+    rw [noNulEnd_tabToSpace]; exact ht
+  unfold packInfo
+  rw [stripNul_of_noNulEnd _ hn, unpack_packRaw]
+  simp [infoSpec, dictOfList, dictUpdate, dictInsert, List.filter, h1, h2, h3, h4, h5, h6, k1, k2, k3]
+
+theorem tabFree_of_version (ver : Str) (h : ver.all (fun c => c.isDigit || c == '.') = true) : '\t' ∉ ver := by
+  intro hm
+  have := (List.all_eq_true.mp h) _ hm
+  revert this
+  decide
+
+theorem tabToSpace_classOf (c : Config) : tabToSpace (classOf c) = classOf c := by
+  cases c <;> (simp only [classOf]; decide)
+
+theorem loadConfig_toArray (fl : Rat → Rat) (hfl : ∀ x, |fl x - x| ≤ |x| / 2 ^ 53) (c : Config) (hok : c.ok = true) :
+    loadConfig fl (classOf c) (c.toArray fl) = .ok (if c.isSRR then Kind.srr else Kind.laser, c) := by
+  cases c with
+  | raster a b d =>
+    have : classOf (Config.raster a b d) ∈ clsLaser := by simp only [classOf]; decide
+    simp only [loadConfig, if_pos this]; rfl
+  | spot a b =>
+    have h1 : ¬ classOf (Config.spot a b) ∈ clsLaser := by simp only [classOf]; decide
+    have h2 : classOf (Config.spot a b) ∈ clsSpot := by simp only [classOf]; decide
+    simp only [loadConfig, if_neg h1, if_pos h2]; rfl
+  | srr c =>
+    have h1 : ¬ classOf (Config.srr c) ∈ clsLaser := by simp only [classOf]; decide
+    have h2 : ¬ classOf (Config.srr c) ∈ clsSpot := by simp only [classOf]; decide
+    have h3 : classOf (Config.srr c) ∈ clsSRR := by simp only [classOf]; decide
+    simp only [loadConfig, if_neg h1, if_neg h2, if_pos h3]
+    rw [srr_roundtrip fl hfl c hok]
+    rfl
+
+theorem data_roundtrip (L : Laser) (h : layersOk L.kind L.layers = true) :
+    ∃ d, dataToArray L = .ok d ∧ d.fields = L.fields ∧
+      ∀ cal cfg info, construct L.kind d cal cfg info = .ok (mkLaser L.kind L.fields L.layers cal cfg info) := by
+  cases hk : L.kind with
+  | laser =>
+    rw [hk] at h
+    match hl : L.layers, h with
+    | [l], _ =>
+      refine ⟨⟨L.fields, l.shape, l.cells⟩, by simp only [dataToArray, hk, hl]; rfl, rfl, ?_⟩
+      intro cal cfg info
+      rfl
+  | srr =>
+    rw [hk] at h
+    match hl : L.layers, h with
+    | l :: ls, h =>
+      simp only [layersOk, Bool.and_eq_true, decide_eq_true_eq, List.all_eq_true, beq_iff_eq] at h
+      obtain ⟨hlen, hall⟩ := h
+      have hshape : ls.all (fun m => m.shape == l.shape) = true := by
+        simp only [List.all_eq_true, beq_iff_eq]
+        intro m hm
+        exact (hall m (by simp [hm])).1
+      refine ⟨⟨L.fields, (ls.length + 1) :: l.shape, (l :: ls).flatMap (·.cells)⟩, ?_, rfl, ?_⟩
+      · simp only [dataToArray, hk, hl, hshape, if_true]; rfl
+      · intro cal cfg info
+        have hs := splitLayers_stack L.fields l.shape (l :: ls) hall
+        simp only [List.length_cons] at hs
+        simp only [construct, hs]
+        have : ¬ (ls.length + 1 ≤ 1) := by omega
+        simp [bind, Except.bind, this]
+        rfl
+
+theorem versionOk_cases (ver : Str) (hv : versionOk ver = true) :
+    '\t' ∉ ver ∧ (∃ r, compareVersion ver v070 = .ok r ∧ r ≠ -1) ∧ (∃ r, compareVersion ver v080 = .ok r ∧ r ≠ -1) := by
+  simp only [versionOk, Bool.and_eq_true] at hv
+  obtain ⟨⟨h1, h2⟩, h3⟩ := hv
+  refine ⟨tabFree_of_version ver h1, ?_, ?_⟩
+  · cases hc : compareVersion ver v070 with
+    | error e => simp [hc] at h2
+    | ok r => exact ⟨r, rfl, by simpa [hc] using h2⟩
+  · cases hc : compareVersion ver v080 with
+    | error e => simp [hc] at h3
+    | ok r => exact ⟨r, rfl, by simpa [hc] using h3⟩
 
 end Pew.Npz
